@@ -1632,6 +1632,16 @@ fn main() {
                     let (a, b) = if r.chance(1, 2) { (1, other) } else { (other, 1) };
                     es.push((a, b, r.chance(2, 3), 0u64, 0u64));
                 }
+                // now and then self-loops on the hub and edges among the spokes (not incident to the hub)
+                if r.chance(1, 2) {
+                    for _ in 0..1 + r.below(3) {
+                        es.push((1, 1, r.chance(1, 2), 0, 0));
+                    }
+                    for _ in 0..r.below(3) {
+                        es.push((2 + r.below(nodes), 2 + r.below(nodes), r.chance(1, 2), 1, 0));
+                    }
+                    rep.hit("seq.big_hub.self_loops_and_bystander_edges");
+                }
                 if batch {
                     ops.push(Op::BCE(es));
                 } else {
